@@ -2,7 +2,7 @@
 from xsvlib.facts import fmt, strip, place_path, FactError, walk
 from xsvlib import q
 from . import common as C
-from .store_shared import batch_bodies, partition_field, key_constructor, mentions_arg
+from .store_shared import batch_bodies, partition_field, key_constructor, mentions_arg, rule_range_bounds
 
 EXPLANATION = ("Sibling agreement of the insert and remove batches, provenance of every idx_topic / idx_context key from one "
                "constructor per key space, symbolic evaluation of the key layout (ctx || topic || 0x00 || id), NUL rejection dominating "
@@ -472,4 +472,6 @@ RULES = [
     ("R-C05-3", "symbolic key layout: ctx||topic||0x00||id, id = last 16 bytes; ctx||id read back as [16..]", r3),
     ("R-C05-4", "a topic containing the delimiter is rejected before any commit, broadcast, GC request or Ok return", r4),
     ("R-C05-5", "head is a reverse prefix scan whose find_map skips entries whose frame is gone", r5),
+    ("R-C05-6", "the context stream scans exactly [ctx, ctx+1) of the context index: it lists the frames get / the all-contexts stream "
+                "hold for that context and no neighbour's (shared with R-C01-1)", rule_range_bounds),
 ]
